@@ -122,6 +122,11 @@ def gen_cases(rng, tier, scale):
         obs_ops = [o for o in ops + seq if o.split(' ')[0] in ('regs', 'regt', 'r', 'rt')]
         main_idx = [i for i, o in enumerate(obs_ops) if o.startswith('r ') or o.startswith('rt ')]
         cases.append({'line': f'mrec{km} ' + ' ; '.join(ops + seq), 'kind': 'entries', 'tpl': tsrc, 'nsetup': 3, 'main_idx': main_idx, 'pi': False, 'tags': ['mutual-recursion']})
+    # data that cannot be serialized: every entry point fails alike (SerdeError), nothing is rendered or written
+    for kb, tsrc in enumerate(['[{{a}}]', 'plain', '{{#each l}}x{{/each}}{{> other}}']):
+        ops = [f'regs {x("main")} {x(tsrc)}', f'regs {x("other")} {x("o")}']
+        seq = [f'rbad {e} {x("main")}' for e in (0, 1, 2, 3)] + [f'rbad {e} {x(tsrc)}' for e in (4, 5, 6, 7)]
+        cases.append({'line': f'bad{kb} ' + ' ; '.join(ops + seq), 'kind': 'badser', 'tpl': tsrc, 'tags': ['unserializable-data']})
     # history independence: render_template* under configuration B gives the same bytes whether the registry (or a
     # clone of it) rendered the same template string under configuration A before or not
     k3 = 0
@@ -170,6 +175,12 @@ def oracle_all(byid):
 def oracle(c, io, mo):
     if io is None:
         return 'no output'
+    if c['kind'] == 'badser':
+        obs = [t for t in io.split(' ') if t.startswith('R:') or t in ('PANIC', 'ABORT')]
+        bad = [t for t in obs if not t.startswith('R:err:SerdeError:')]
+        if len(obs) != 8 or bad:
+            return f'unserializable data must make every entry point fail alike with SerdeError; got {[t[:40] for t in obs]}'
+        return None
     if c['kind'] in ('hist', 'fresh'):
         return None
     toks = io.split(' ')
